@@ -14,7 +14,7 @@ func init() {
 		ID:    "C10",
 		Title: "Writes need a fresh token issued to the same IP",
 		Decided: "C10.1 in the announce_peer and put handlers every side effect (peer store, announce hook, item store) and every reply/error is dominated by validToken(args.token, source)=true; after validToken=false the handler does nothing but count; Server.validToken answers true only under tokenServer.ValidToken(token, addr)=true for its own arguments in the same call (no remembered verdicts); " +
-			"C10.2 the token hashes exactly {source IP (16-byte form), interval index, secret} — not the port or the address string — and validation recomputes it for the same address over maxIntervalDelta+1 steps of one interval; " +
+			"C10.2 the token hashes exactly {source IP (16-byte form), interval index, secret} — not the port or the address string — and validation recomputes it for the same address over maxIntervalDelta+1 steps of one interval; the interval index is hashed at its full 64-bit width (no narrowing conversion, 64-bit encoder), so an expired token never becomes valid again; " +
 			"C10.3 the window constants give ≥10 min and ≤15 min lifetimes; the secret is a buffer of constant length ≥ 8 filled by crypto/rand and, like the constants, written only at construction (NewServer or a constructor only it calls); C10.4 get and get_peers (with a peer store) replies carry a token created for the query source.",
 		NotDecided: "SHA-1 unforgeability; the relation between wall-clock time and the rotation grid beyond the constants.",
 		Rules: []*Rule{
@@ -238,16 +238,57 @@ func c10r2(w *World, rr *RuleRun) {
 	isIndexTerm := func(v string) bool {
 		return strings.Contains(v, "UnixNano") && strings.Contains(v, ".interval") && strings.Contains(v, "/")
 	}
+	// the index enters the hash at full width: a conversion to an integer type narrower than 64 bits
+	// on the way makes tokens repeat after 2^w intervals, i.e. an expired token becomes valid again
+	// (C10-v2: uint16(ti))
+	// (numeric conversions are transparent in the term language, so this looks at the SSA values)
+	var narrowedV func(v ssa.Value, depth int) string
+	narrowedV = func(v ssa.Value, depth int) string {
+		if v == nil || depth > 8 {
+			return ""
+		}
+		switch x := v.(type) {
+		case *ssa.Convert:
+			if tb, ok := x.Type().Underlying().(*types.Basic); ok && tb.Info()&types.IsInteger != 0 {
+				if sz := types.SizesFor("gc", "amd64").Sizeof(tb); sz < 8 {
+					return tb.Name()
+				}
+			}
+			return narrowedV(x.X, depth+1)
+		case *ssa.ChangeType:
+			return narrowedV(x.X, depth+1)
+		case *ssa.BinOp:
+			if r := narrowedV(x.X, depth+1); r != "" {
+				return r
+			}
+			return narrowedV(x.Y, depth+1)
+		case *ssa.UnOp:
+			return narrowedV(x.X, depth+1)
+		case *ssa.Phi:
+			for _, e := range x.Edges {
+				if r := narrowedV(e, depth+1); r != "" {
+					return r
+				}
+			}
+		}
+		return ""
+	}
 	sawIP, sawSecret, sawTime := false, false, false
 	for _, in := range inputs {
 		kind, s, bad := "?", "", ""
 		if in.num != nil {
-			s = w.TS.Of(in.num).String()
+			nt := w.TS.Of(in.num)
+			s = nt.String()
 			if isIndexTerm(s) {
 				kind = "interval-index"
 				sawTime = true
 			}
 			rr.At(w, in.at, "token hash input", kind == "interval-index", kind+": "+s)
+			if kind == "interval-index" {
+				co := calleeObj(callInstrCommon(in.at))
+				nb := narrowedV(in.num, 0)
+				rr.At(w, in.at, "the interval index is hashed at its full 64-bit width", nb == "" && co != nil && strings.HasSuffix(co.Name(), "Uint64"), fmt.Sprintf("encoder %v, narrowing conversion %q", co, nb))
+			}
 			continue
 		}
 		t := w.TS.Of(in.bytes)
@@ -258,6 +299,11 @@ func c10r2(w *World, rr *RuleRun) {
 			if dst.IsConst("nil") && isIndexTerm(t.Args[len(t.Args)-1].String()) {
 				sawTime = true
 				rr.At(w, in.at, "token hash input", true, "interval-index: "+s)
+				nb := ""
+				if cv, isCall := in.bytes.(*ssa.Call); isCall && len(cv.Call.Args) > 0 {
+					nb = narrowedV(cv.Call.Args[len(cv.Call.Args)-1], 0)
+				}
+				rr.At(w, in.at, "the interval index is hashed at its full 64-bit width", nb == "" && strings.Contains(t.Name, "AppendUint64"), fmt.Sprintf("encoder %s, narrowing conversion %q", t.Name, nb))
 				continue
 			}
 		}
@@ -295,6 +341,8 @@ func c10r2(w *World, rr *RuleRun) {
 					if isIndexTerm(w.TS.Of(c.Args[2]).String()) {
 						kind = "interval-index"
 						sawTime = true
+						nb := narrowedV(c.Args[2], 0)
+						rr.At(w, ins, "the interval index is hashed at its full 64-bit width", nb == "", fmt.Sprintf("encoder PutUint64, narrowing conversion %q", nb))
 					}
 				}
 			})
